@@ -71,7 +71,7 @@ pub fn judge_episodes(w: &World, caps: &dyn Fn(usize) -> usize, gran: i64) -> Re
         // The library counts every non-directory entry it lists.  Dot-files
         // are C17's business; populations here contain none.
         let after = ep.after();
-        match sc_model::check_maintenance(&ep.before, &after, cap, ep.now, gran) {
+        match sc_model::check_maintenance(&ep.before, &after, &ep.restamped.iter().map(|r| r.0.clone()).collect::<Vec<_>>(), cap, ep.now, gran) {
             Ok(s) => {
                 eps += 1;
                 ev += s.evicted;
